@@ -2,8 +2,8 @@ package main
 
 import (
 	"fmt"
-	"math/big"
 	"go/types"
+	"math/big"
 	"sort"
 	"strings"
 
@@ -137,7 +137,7 @@ func (e *Engine) storeAt(st *State, t types.Type, l *Term, comp string, v *Term)
 			panic(outsideSubset("store of large array value"))
 		}
 		for i := int64(0); i < at.Len(); i++ {
-			src := ElemLoc(SliceBase(v), Add(SliceOff(v), IntT(i)))
+			src := ElemLoc(SliceBase(v), ElemIndex(SliceOff(v), IntT(i)))
 			ev := e.loadAt(st, at.Elem(), src, compElem(at.Elem()))
 			e.storeAt(st, at.Elem(), ElemLoc(l, IntT(i)), compElem(at.Elem()), ev)
 		}
@@ -222,18 +222,59 @@ func (e *Engine) noteLoaded(st *State, t types.Type, v *Term) {
 		return
 	}
 	e.loadedFacts[v.id] = true
-	e.wellFormedValue(t, v, bound)
+	// the cell is meaningful only if its object existed when this heap was current
+	lobj := LocObj(v.Args[1])
+	g := And(Lt(lobj, bound), Gt(lobj, IntT(0)))
+	e.wellFormedValueIf(g, t, v, bound)
 	if isInput {
-		e.inputObjFacts(t, v)
+		e.inputObjFactsIf(g, t, v)
 	}
 }
 
 // ---- state merging ----
 
+// relativize removes the conjuncts common to all edge conditions: merges
+// only need to distinguish the incoming edges from each other.
+func relativize(edges []edge) []edge {
+	if len(edges) < 2 {
+		return edges
+	}
+	common := map[int]bool{}
+	for _, x := range conj(edges[0].pc) {
+		common[x.id] = true
+	}
+	for _, ed := range edges[1:] {
+		in := map[int]bool{}
+		for _, x := range conj(ed.pc) {
+			in[x.id] = true
+		}
+		for id := range common {
+			if !in[id] {
+				delete(common, id)
+			}
+		}
+	}
+	if len(common) == 0 {
+		return edges
+	}
+	out := make([]edge, len(edges))
+	for i, ed := range edges {
+		var rest []*Term
+		for _, x := range conj(ed.pc) {
+			if !common[x.id] {
+				rest = append(rest, x)
+			}
+		}
+		out[i] = edge{pc: And(rest...), st: ed.st, from: ed.from}
+	}
+	return out
+}
+
 func (e *Engine) mergeStates(edges []edge) *State {
 	if len(edges) == 1 {
 		return edges[0].st.clone()
 	}
+	edges = relativize(edges)
 	out := newState()
 	keys := map[string]bool{}
 	for _, ed := range edges {
@@ -412,7 +453,6 @@ func shortFn(fn *ssa.Function) string {
 	return s
 }
 
-
 func zeroOfSort(s *Sort) *Term {
 	switch s {
 	case BoolS:
@@ -462,7 +502,6 @@ func rebase(t *Term, base *Term) *Term {
 	}
 	return t
 }
-
 
 // mergeAlloc: at a join the allocation counter becomes the maximum of the
 // incoming counters, so that object ids stay free of path conditions.
